@@ -27,7 +27,11 @@ RULE = ('unit: arrays with 2-8 leaves, 3-14 genes, 1-5 cells, 1-12 '
         '= centroid, positive/negative affine image of a centroid); leaf->'
         'child maps with and without repeated types (sorted and unsorted '
         'names); factors 1, 0.5, 1/n, products landing on .5, tiny, random; '
-        'n_assignments 1..children+2; malformed stream: factor > 1, '
+        'n_assignments 1..children+2; many-iteration cases crossing the vote '
+        'counter widths (255, 256, 257, 300, 700, 65536; thorough also '
+        '65535) on confidently mapped cells, unit and pipeline; elections over '
+        '10001..24999 query rows (row batching), thorough also one ~12000-cell '
+        'pipeline run with one chunk vs 4000-cell chunks; malformed stream: factor > 1, '
         'factor <= 0, n_assignments 0, no reference rows, no marker genes. '
         'pipeline: generated '
         'mapping problems (independent gene orders of query and reference, '
@@ -502,6 +506,461 @@ def check_unit(ctx, case):
 
 
 # ---------------------------------------------------------------------------
+# many iterations: the vote counter crosses the integer-width boundaries
+# (uint8 255/256, uint16 65535/65536)
+# ---------------------------------------------------------------------------
+
+def gen_many(rng, iters, with_choose=True):
+    n_leaves = rng.randint(2, 3)
+    n_genes = rng.randint(3, 5)
+    refs = [[float(rng.randint(0, 9)) + rng.random() for _ in range(n_genes)]
+            for _ in range(n_leaves)]
+    # confidently mapped cells: copies / affine images of a centroid
+    query = []
+    for _ in range(rng.randint(1, 2)):
+        j = rng.randrange(n_leaves)
+        query.append([2.0 * v + 1.0 for v in refs[j]]
+                     if rng.random() < 0.5 else list(refs[j]))
+    names = rng.sample(TYPE_POOL, n_leaves)
+    if n_leaves == 3 and rng.random() < 0.5:
+        names[2] = names[0]
+    return {'kind': 'unit-many', 'refs': refs, 'query': query,
+            'types': names, 'factor': rng.choice([1.0, 1.0, 0.7]),
+            'iters': iters, 'n_assign': rng.randint(1, 4),
+            'seed': rng.randrange(2 ** 31), 'with_choose': with_choose,
+            'label': ['iters-%d' % iters]}
+
+
+def check_many(ctx, case):
+    """tally_votes / choose_node with hundreds .. 65536 iterations; the
+    per-iteration work is cached per distinct subset (the nearest neighbour
+    is a function of the subset)"""
+    from cell_type_mapper.type_assignment import election
+    from cell_type_mapper.utils import distance_utils
+    from props import c03
+    refs = np.array(case['refs'], dtype=float)
+    query = np.array(case['query'], dtype=float)
+    n_cells, n_genes = query.shape
+    n_leaves = refs.shape[0]
+    types = list(case['types'])
+    factor, iters, n_assign = case['factor'], case['iters'], case['n_assign']
+    ctx.count('many:iters-%d' % iters)
+    ctx.case(json.dumps(case, sort_keys=True), sample={
+        k: case[k] for k in ('label', 'types', 'factor', 'iters',
+                             'n_assign')})
+
+    def violation(cls, what, found=True, **extra):
+        d = dict(case)
+        d.update(extra)
+        if not found:
+            d['broken'] = what
+        ctx.violation('%s/many/%s' % (SIG, cls), what, d, found_input=found)
+
+    rr = eu.RecordingRng(case['seed'])
+    with np.errstate(all='ignore'):
+        votes, corr_sum = election.tally_votes(
+            query_gene_data=query, reference_gene_data=refs,
+            bootstrap_factor=factor, bootstrap_iteration=iters, rng=rr)
+    subsets = [tuple(sorted(map(int, s))) for s in rr.draws]
+    size = eu.expected_subset_size(factor, n_genes)
+    if len(subsets) != iters:
+        violation('subset/count', '%d subsets for %d iterations'
+                  % (len(subsets), iters))
+        return
+    mult = {}
+    for s in subsets:
+        mult[s] = mult.get(s, 0) + 1
+    want_votes = np.zeros((n_cells, n_leaves), dtype=np.int64)
+    want_corr = np.zeros((n_cells, n_leaves), dtype=float)
+    distinct = sorted(mult)
+    mv = None
+    if ctx.driver_ok:
+        mv = ctx.model('election.cellVotes', {
+            'refs': [eu.rats(r) for r in refs.tolist()],
+            'xs': [eu.rats(r) for r in query.tolist()],
+            'subsets': [list(s) for s in distinct]})
+    for si, s in enumerate(distinct):
+        p = eu.subset_problems(list(s), n_genes, size)
+        if p:
+            violation('subset/' + p[0].split(' ')[0], 'subset %r: %s'
+                      % (s, p))
+            return
+        cols = list(s)
+        with np.errstate(all='ignore'):
+            a, b = distance_utils.correlation_nearest_neighbors(
+                baseline_array=refs[:, cols], query_array=query[:, cols],
+                return_correlation=True)
+        for c in range(n_cells):
+            ctx.evaluations += 1
+            fr = eu.float_corr(refs[:, cols], query[c, cols])
+            j = int(a[c])
+            if fr[j] < fr.max() - eu.REL or abs(float(b[c]) - fr[j]) > eu.REL:
+                violation('nearest/not-argmax', 'cell %d subset %r: leaf %d '
+                          'corr %r, recomputed %r' % (c, s, j, float(b[c]),
+                                                      fr.tolist()))
+                return
+            if mv is not None:
+                m = mv[c][si]
+                sc = [eu.ssq_to_r(eu.frac(q)) for q in m['scores']]
+                if max(abs(x - y) for x, y in zip(sc, fr)) > eu.REL or (
+                        m['idx'] != j and sc[j] < max(sc) - eu.REL):
+                    ctx.disagreements_checked += 1
+                    violation('correspondence/nearestLeaf',
+                              'correspondence CTM.Numeric.nearestLeaf ~ '
+                              'correlation_nearest_neighbors', found=False,
+                              model=m, impl=j)
+                    return
+            want_votes[c, j] += mult[s]
+            want_corr[c, j] += mult[s] * float(b[c])
+    # every iteration casts exactly one vote per cell; the counters hold it
+    got = np.asarray(votes).astype(np.int64)
+    if not np.array_equal(got, want_votes) or \
+            not np.allclose(corr_sum, want_corr, rtol=1e-9, atol=1e-9):
+        violation('tally/count',
+                  '%d iterations: votes %r (dtype %s), the per-iteration '
+                  'nearest neighbours give %r'
+                  % (iters, got.tolist(), np.asarray(votes).dtype,
+                     want_votes.tolist()), votes=got.tolist(),
+                  want=want_votes.tolist())
+        return
+    if ctx.driver_ok and iters <= 1000:
+        # tallyCell on the rows in iteration order (cached per subset)
+        per = {}
+        for s in distinct:
+            cols = list(s)
+            with np.errstate(all='ignore'):
+                a, b = distance_utils.correlation_nearest_neighbors(
+                    baseline_array=refs[:, cols], query_array=query[:, cols],
+                    return_correlation=True)
+            per[s] = (a, b)
+        for c in range(n_cells):
+            out = ctx.model('election.tallyCell', {
+                'nLeaves': n_leaves,
+                'rows': [[int(per[s][0][c]), eu.rat(float(per[s][1][c]))]
+                         for s in subsets]})
+            if out['votes'] != want_votes[c].tolist():
+                ctx.disagreements_checked += 1
+                violation('correspondence/tallyCell',
+                          'correspondence CTM.Election.tallyCell ~ '
+                          'tally_votes', found=False, model=out['votes'])
+                return
+    ctx.traces += 1
+    if not case.get('with_choose', True):
+        return
+    rr2 = eu.RecordingRng(case['seed'])
+    with np.errstate(all='ignore'):
+        (res, probs, avg, runners) = election.choose_node(
+            query_gene_data=query, reference_gene_data=refs,
+            reference_types=list(types), bootstrap_factor=factor,
+            bootstrap_iteration=iters, rng=rr2, n_assignments=n_assign)
+    names = sorted(set(types))
+    tid = {t: i for i, t in enumerate(names)}
+    for c in range(n_cells):
+        ctx.evaluations += 1
+        dv, dc = eu.tally_by_child(types, want_votes[c], want_corr[c])
+        kept = [t for t in runners[c] if t[1]]
+        ra = [str(t[0]) for t in kept]
+        rc = [float(t[2]) for t in kept]
+        rp = [float(t[3]) for t in kept]
+        p = eu.check_choice(dv, dc, iters, n_assign - 1, str(res[c]),
+                            float(probs[c]), float(avg[c]), ra, rc, rp)
+        p += c03.contract_problems(types, dv, iters, n_assign, str(res[c]),
+                                   float(probs[c]), float(avg[c]), ra, rc,
+                                   rp)
+        if p:
+            violation('choose/' + p[0][0], 'cell %d, %d iterations: %s'
+                      % (c, iters, p[:4]), cell=c, child_votes=dv,
+                      winner=str(res[c]), prob=float(probs[c]),
+                      avg=float(avg[c]))
+            return
+        if ctx.driver_ok:
+            mt = [tid[t] for t in types]
+            cols = ctx.model('election.columns', {
+                'types': mt, 'votes': want_votes[c].tolist(),
+                'corr': eu.rats(want_corr[c])})
+            listed = [tid[str(res[c])]] + [tid[str(t[0])]
+                                           for t in runners[c]]
+            order = eu.order_from_output(cols['types'], cols['votes'],
+                                         listed)
+            out = ctx.model('election.choose', {
+                'types': mt, 'votes': want_votes[c].tolist(),
+                'corr': eu.rats(want_corr[c]), 'iters': iters,
+                'nAssign': n_assign, 'order': order})
+            same = 'ok' in out and out['validOrder'] and \
+                names[out['ok']['winner']] == str(res[c]) and \
+                float(eu.frac(out['ok']['prob'])) == float(probs[c]) and \
+                eu.near(float(eu.frac(out['ok']['avgCorr'])), float(avg[c]),
+                        ab=eu.REL) and \
+                [names[x] for x in out['ok']['kept']['assignment']] == ra \
+                and [float(eu.frac(x))
+                     for x in out['ok']['kept']['probability']] == rp
+            if not same:
+                ctx.disagreements_checked += 1
+                violation('correspondence/chooseCell',
+                          'correspondence CTM.Election.chooseCell ~ '
+                          'choose_node (many iterations)', found=False,
+                          model=out, cell=c)
+                return
+
+
+# ---------------------------------------------------------------------------
+# many query rows in one election (row batching inside
+# correlation_nearest_neighbors: 10000-row boundaries)
+# ---------------------------------------------------------------------------
+
+def gen_rows(rng, n_query):
+    return {'kind': 'unit-rows', 'n_query': n_query,
+            'n_genes': rng.randint(3, 6), 'n_refs': rng.randint(2, 4),
+            'iters': rng.randint(1, 2), 'factor': rng.choice([1.0, 0.7]),
+            'seed': rng.randrange(2 ** 31), 'label': ['rows-%d' % n_query]}
+
+
+def rows_arrays(case):
+    g = np.random.default_rng(case['seed'])
+    refs = g.random((case['n_refs'], case['n_genes'])) * 6.0
+    query = g.random((case['n_query'], case['n_genes'])) * 6.0
+    # some rows are copies of a centroid
+    pick = g.integers(0, case['n_refs'], case['n_query'])
+    copy = g.random(case['n_query']) < 0.2
+    query[copy] = refs[pick[copy]]
+    names = ['t%d' % i for i in range(case['n_refs'])]
+    if case['n_refs'] > 2:
+        names[-1] = names[0]
+    return refs, query, names
+
+
+def slice_corr(refs, query, step=997):
+    """Pearson correlation of every query row with every reference row,
+    from the definition, in small slices: (n_query, n_refs)"""
+    rc = refs - refs.mean(axis=1, keepdims=True)
+    rn = np.sqrt((rc * rc).sum(axis=1))
+    out = np.zeros((query.shape[0], refs.shape[0]))
+    for r0 in range(0, query.shape[0], step):
+        q = query[r0:r0 + step]
+        qc = q - q.mean(axis=1, keepdims=True)
+        qn = np.sqrt((qc * qc).sum(axis=1))
+        den = np.outer(qn, rn)
+        num = qc @ rc.T
+        with np.errstate(all='ignore'):
+            out[r0:r0 + step] = np.where(den > 0, num / np.where(
+                den > 0, den, 1.0), 0.0)
+    return out
+
+
+def check_rows(ctx, case):
+    from cell_type_mapper.type_assignment import election
+    from cell_type_mapper.utils import distance_utils
+    refs, query, types = rows_arrays(case)
+    n = query.shape[0]
+    iters, factor = case['iters'], case['factor']
+    ctx.count('rows:%d' % n)
+    ctx.case(json.dumps(case, sort_keys=True), sample=case)
+
+    def violation(cls, what, found=True, **extra):
+        d = dict(case)
+        d.update(extra)
+        if not found:
+            d['broken'] = what
+        ctx.violation('%s/rows/%s' % (SIG, cls), what, d, found_input=found)
+
+    with np.errstate(all='ignore'):
+        idx, val = distance_utils.correlation_nearest_neighbors(
+            baseline_array=refs, query_array=query, return_correlation=True)
+    idx = np.asarray(idx).astype(int)
+    val = np.asarray(val, dtype=float)
+    want = slice_corr(refs, query)
+    ctx.evaluations += n
+    rows = np.arange(n)
+    if idx.shape != (n,) or idx.min() < 0 or idx.max() >= refs.shape[0]:
+        violation('nearest/index', 'neighbour indices malformed')
+        return
+    bad = np.where((want[rows, idx] < want.max(axis=1) - eu.REL) |
+                   (np.abs(val - want[rows, idx]) > eu.REL))[0]
+    if len(bad):
+        r = int(bad[0])
+        violation('nearest/not-argmax',
+                  'query row %d of %d: neighbour %d with reported '
+                  'correlation %r; correlations are %r (%d rows wrong, '
+                  'first %d last %d)' % (r, n, idx[r], float(val[r]),
+                                         want[r].tolist(), len(bad),
+                                         int(bad[0]), int(bad[-1])),
+                  row=r, query_row=query[r].tolist(), refs=refs.tolist())
+        return
+    if ctx.driver_ok:
+        sample = sorted(set(
+            r for r in [0, 1, n - 1, n - 2] + [
+                k * 10000 + d for k in range(1, n // 10000 + 1)
+                for d in (-1, 0, 1)] + [k * 5000 for k in range(1, 6)]
+            if 0 <= r < n))
+        out = ctx.model('election.corr', {
+            'refs': [eu.rats(r) for r in refs.tolist()],
+            'xs': [eu.rats(query[r].tolist()) for r in sample]})
+        for r, o in zip(sample, out):
+            sc = [eu.ssq_to_r(eu.frac(q)) for q in o['scores']]
+            if max(abs(a - b) for a, b in zip(sc, want[r])) > eu.REL or (
+                    o['nearest'] != int(idx[r]) and
+                    sc[int(idx[r])] < max(sc) - eu.REL):
+                ctx.disagreements_checked += 1
+                violation('correspondence/nearestLeaf',
+                          'correspondence CTM.Numeric.nearestLeaf ~ '
+                          'correlation_nearest_neighbors (row %d of %d)'
+                          % (r, n), found=False, model=o, impl=int(idx[r]))
+                return
+    # tally_votes / choose_node over the same rows
+    rr = eu.RecordingRng(case['seed'])
+    with np.errstate(all='ignore'):
+        votes, corr_sum = election.tally_votes(
+            query_gene_data=query, reference_gene_data=refs,
+            bootstrap_factor=factor, bootstrap_iteration=iters, rng=rr)
+    subsets = [sorted(map(int, s)) for s in rr.draws]
+    want_votes = np.zeros((n, refs.shape[0]), dtype=np.int64)
+    want_corr = np.zeros((n, refs.shape[0]))
+    ambiguous = np.zeros(n, dtype=bool)
+    for s in subsets:
+        w = slice_corr(refs[:, s], query[:, s])
+        j = w.argmax(axis=1)
+        srt = np.sort(w, axis=1)
+        ambiguous |= (srt[:, -1] - srt[:, -2] <= eu.REL)
+        want_votes[rows, j] += 1
+        want_corr[rows, j] += w[rows, j]
+    got = np.asarray(votes).astype(np.int64)
+    ok = ~ambiguous
+    ctx.evaluations += n
+    badr = np.where(ok & ((got != want_votes).any(axis=1) | (
+        np.abs(corr_sum - want_corr) > eu.REL).any(axis=1)))[0]
+    if (got.sum(axis=1) != iters).any() or len(badr):
+        r = int(badr[0]) if len(badr) else int(
+            np.where(got.sum(axis=1) != iters)[0][0])
+        violation('tally/count', 'query row %d of %d: votes %r, recomputed '
+                  '%r (%d rows wrong)' % (r, n, got[r].tolist(),
+                                          want_votes[r].tolist(), len(badr)),
+                  row=r, subsets=subsets)
+        return
+    rr2 = eu.RecordingRng(case['seed'])
+    with np.errstate(all='ignore'):
+        res, probs, avg, runners = election.choose_node(
+            query_gene_data=query, reference_gene_data=refs,
+            reference_types=list(types), bootstrap_factor=factor,
+            bootstrap_iteration=iters, rng=rr2, n_assignments=2)
+    names = sorted(set(types))
+    child_votes = np.zeros((n, len(names)), dtype=np.int64)
+    for k, t in enumerate(types):
+        child_votes[:, names.index(t)] += want_votes[:, k]
+    widx = np.array([names.index(str(t)) for t in res])
+    ctx.evaluations += n
+    wv = child_votes[rows, widx]
+    badc = np.where(ok & ((wv != child_votes.max(axis=1)) |
+                          (np.asarray(probs) != wv / iters)))[0]
+    if len(badc):
+        r = int(badc[0])
+        violation('choose/winner-not-plurality',
+                  'query row %d of %d: winner %r probability %r, child '
+                  'votes %r (%d rows wrong)'
+                  % (r, n, str(res[r]), float(probs[r]),
+                     dict(zip(names, child_votes[r].tolist())), len(badc)),
+                  row=r)
+        return
+    ctx.traces += 1
+    ctx.count('rows:ambiguous', int(ambiguous.sum()))
+
+
+def check_big_pipeline(ctx, case):
+    """~12000 cells through run_mapping with one 12000-cell chunk and with
+    4000-cell chunks (factor 1: every subset is the whole marker list, so the
+    result does not depend on the random stream): identical on cell id, and the
+    first-level assignment recomputed from the files for every cell"""
+    from ctmverif import pipeline
+    g = np.random.default_rng(case['seed'])
+    import random as _random
+    prng = _random.Random(case['seed'])
+    tree = ep.gen_tree(prng, 2, max_leaves=5)
+    tv = eu.TreeView(tree)
+    genes = ['g%d' % i for i in range(case['n_genes'])]
+    leaf_n = {l: 2 for l in tv.leaves}
+    leaf_sum = {l: g.random(case['n_genes']) * 12.0 for l in tv.leaves}
+    X = g.random((case['n_cells'], case['n_genes'])) * 6.0
+    cell_ids = ['c%d' % i for i in range(case['n_cells'])]
+    qgenes = list(genes)
+    prng.shuffle(qgenes)
+    markers = {p: list(genes) for p in ['None'] + [
+        '%s/%s' % (tree['hierarchy'][0], nd)
+        for nd in tree[tree['hierarchy'][0]]]}
+    ctx.count('big-pipeline')
+
+    def violation(cls, what, found=True, **extra):
+        d = dict(case)
+        d.update(extra)
+        ctx.violation('%s/big-pipeline/%s' % (SIG, cls), what, d,
+                      found_input=found)
+
+    outs = {}
+    with pipeline.workdir() as d:
+        stats = pipeline.write_stats_file(d / 'stats.h5', tree, genes,
+                                          leaf_sum, leaf_n)
+        q = pipeline.write_h5ad(d / 'query.h5ad', X, cell_ids, qgenes)
+        (d / 'markers.json').write_text(json.dumps(markers))
+        for cs in case['chunk_sizes']:
+            sub = d / ('cs%d' % cs)
+            sub.mkdir()
+            cfg = pipeline.mapping_config(
+                q, stats, d / 'markers.json', sub, sub, n_processors=1,
+                chunk_size=cs, bootstrap_factor=1.0, bootstrap_iteration=2,
+                rng_seed=case['seed'] % 1000, n_runners_up=1,
+                normalization='log2CPM', csv=False)
+            res = pipeline.run_mapping(cfg)
+            if not res['ok'] or res['json'] is None:
+                violation('run-fails', 'run_mapping failed with chunk_size '
+                          '%d: %r' % (cs, res['error']))
+                return
+            outs[cs] = {r['cell_id']: r for r in res['json']['results']}
+    h = tree['hierarchy']
+    # recompute the top-level choice of every cell from the inputs
+    leaves = sorted(tv.leaves)
+    means = np.array([leaf_sum[l] / leaf_n[l] for l in leaves])
+    col = [qgenes.index(x) for x in genes]
+    w = slice_corr(means, X[:, col])
+    srt = np.sort(w, axis=1)
+    clear = (srt[:, -1] - srt[:, -2]) > eu.REL if len(leaves) > 1 else \
+        np.ones(len(X), dtype=bool)
+    top = [tv.anc[leaves[j]][h[0]] for j in w.argmax(axis=1)]
+    n_top = len(tree[h[0]])
+    for cs, out in outs.items():
+        ctx.evaluations += len(cell_ids)
+        if sorted(out) != sorted(cell_ids):
+            violation('cells', 'chunk_size %d: result cells differ from '
+                      'the query cells' % cs)
+            return
+        if n_top > 1:
+            for i, cid in enumerate(cell_ids):
+                r = out[cid][h[0]]
+                if clear[i] and (r['assignment'] != top[i] or
+                                 r['bootstrapping_probability'] != 1.0):
+                    violation('top-level', 'chunk_size %d, cell %r (row %d '
+                              'of %d): assigned %r with probability %r, '
+                              'nearest leaf is in %r'
+                              % (cs, cid, i, len(cell_ids), r['assignment'],
+                                 r['bootstrapping_probability'], top[i]),
+                              row=i)
+                    return
+    a, b = [outs[cs] for cs in case['chunk_sizes'][:2]]
+    for i, cid in enumerate(cell_ids):
+        if not clear[i]:
+            continue
+        for lv in h:
+            ra, rb = a[cid][lv], b[cid][lv]
+            if ra['assignment'] != rb['assignment'] or \
+                    ra['bootstrapping_probability'] != \
+                    rb['bootstrapping_probability'] or not eu.near(
+                        ra['avg_correlation'], rb['avg_correlation']):
+                violation('chunking-differs', 'cell %r (row %d): level %r '
+                          'differs between chunk sizes %r: %r vs %r'
+                          % (cid, i, lv, case['chunk_sizes'], ra, rb), row=i)
+                return
+    ctx.traces += 1
+    ctx.case(json.dumps(case, sort_keys=True))
+
+
+# ---------------------------------------------------------------------------
 # run / replay
 # ---------------------------------------------------------------------------
 
@@ -523,8 +982,27 @@ def run(ctx):
         check_unit(ctx, gen_unit(rng, i))
     for i in range(n_mal):
         check_unit(ctx, gen_malformed(rng, i))
+    for iters in (255, 256, 257, 300, 700):
+        for _ in range(1 if quick else 4):
+            check_many(ctx, gen_many(rng, iters))
+    # the uint16 boundary (4 s per tally of 65536 iterations)
+    check_many(ctx, gen_many(rng, 65536, with_choose=not quick))
+    if not quick:
+        check_many(ctx, gen_many(rng, 65535))
+    for n_query in (10001, 12000, 14999, 20001, 24999):
+        check_rows(ctx, gen_rows(rng, n_query))
+    if not quick:
+        for n_query in (9999, 10000, 15000, 30001):
+            check_rows(ctx, gen_rows(rng, n_query))
+        check_big_pipeline(ctx, {
+            'kind': 'big-pipeline', 'n_cells': 12000 + rng.randint(0, 400),
+            'n_genes': rng.randint(6, 9), 'chunk_sizes': [12500, 4000],
+            'seed': rng.randrange(2 ** 31)})
     for i in range(n_pipe):
         case = ep.gen_pipeline_case(rng, i)
+        ep.check_pipeline(ctx, case, SIG, do_votes=True, do_c03=False)
+    for i in range(2 if quick else 10):
+        case = ep.gen_pipeline_case(rng, i, many_iters=True)
         ep.check_pipeline(ctx, case, SIG, do_votes=True, do_c03=False)
 
 
@@ -533,6 +1011,12 @@ def replay(ctx, data, from_corpus=False):
     kind = d.get('kind')
     if kind == 'unit':
         check_unit(ctx, d)
+    elif kind == 'unit-many':
+        check_many(ctx, d)
+    elif kind == 'unit-rows':
+        check_rows(ctx, d)
+    elif kind == 'big-pipeline':
+        check_big_pipeline(ctx, d)
     elif kind == 'pipeline':
         ep.check_pipeline(ctx, d, SIG, do_votes=True, do_c03=False)
     elif not from_corpus:
